@@ -84,7 +84,14 @@ enum Cmd { Start(Op), Step, Free, Quit }
 enum Ev { Yield(u32), Done(String), Pending }
 
 #[derive(Clone, Copy, Debug, PartialEq, Eq)]
-pub enum WState { Idle, Parked(u32), Pending }
+pub enum WState {
+    Idle,
+    Parked(u32),
+    Pending,
+    /// granted a step into a blocking `lock()` that is held by another thread: the thread now sits
+    /// inside the real `lock()` call and will go on by itself when the holder releases the lock
+    InLock(u32),
+}
 
 /// the pipeline.rs queue pair: one sender shared by reference between the producer threads
 struct Pipe {
@@ -239,6 +246,8 @@ pub struct Init { pub cap: usize, pub start: usize, pub nprod: usize, pub pipe: 
 #[derive(Clone, Copy, Debug, PartialEq, Eq)]
 pub enum Avail { NeedsOp, Runnable, Blocked, NoHandle }
 
+const PROBE_WAIT: Duration = Duration::from_millis(12);
+
 pub struct Case {
     pub init: Init,
     sh: Arc<Shared>,
@@ -251,13 +260,21 @@ pub struct Case {
     clone_target: Vec<usize>,
     push_lock: Option<Arc<parking_lot::Mutex<()>>>,
     pub recv_dropped: bool,
+    /// who is inside the producer-lock / consumer-lock region (tracked from the yield points passed)
+    holder_push: Option<Tid>,
+    holder_pop: Option<Tid>,
+    /// steps that happened without a grant: a thread waiting inside `lock()` acquired it
+    implicit: Vec<(Label, String)>,
+    /// a thread went through a lock that the model (and the real mutex state) says is held
+    pub lock_fail: Option<String>,
+    pub probes: usize,
     pub stop_called: bool,
     pub eos_seen: bool,
     pub timeout: bool,
 }
 
 pub const MAX_PROD: usize = 4;
-const STEP_TIMEOUT: Duration = Duration::from_secs(10);
+const STEP_TIMEOUT: Duration = Duration::from_secs(4);
 
 impl Case {
     pub fn new(init: Init) -> Case {
@@ -265,7 +282,8 @@ impl Case {
         let mut handle = vec![0u8; MAX_PROD];
         let n = init.nprod.clamp(1, MAX_PROD);
         let (sh, push_lock) = if init.pipe {
-            let (sender, receiver) = rustrtc::media::pipeline::verif_sample_queue_channel(init.cap);
+            let (sender, receiver) = if init.start == 0 { rustrtc::media::pipeline::verif_sample_queue_channel(init.cap) }
+                else { rustrtc::media::pipeline::verif_sample_queue_channel_with_start(init.cap, init.start) };
             let sender = Arc::new(sender);
             let pipe = Pipe { queue: receiver.verif_queue(), pop_lock: receiver.verif_pop_lock(), closed: receiver.verif_closed_flag(),
                 sender: Arc::downgrade(&sender),
@@ -295,7 +313,7 @@ impl Case {
             (sh, Some(push_lock))
         };
         Case { init, sh, prods: (0..MAX_PROD).map(|_| None).collect(), cons: None, stop: None, handle,
-               clone_target: vec![0; MAX_PROD], push_lock, recv_dropped: false, stop_called: false, eos_seen: false, timeout: false }
+               clone_target: vec![0; MAX_PROD], push_lock, recv_dropped: false, holder_push: None, holder_pop: None, implicit: vec![], lock_fail: None, probes: 0, stop_called: false, eos_seen: false, timeout: false }
     }
 
     fn worker(&mut self, t: Tid) -> &mut Worker {
@@ -329,6 +347,95 @@ impl Case {
             WState::Parked(p) if p == hook::point::SRC_LOCK_PUSH && self.push_locked() => Avail::Blocked,
             WState::Parked(_) => Avail::Runnable,
             WState::Pending => if self.sh.woken.load(Ordering::SeqCst) { Avail::Runnable } else { Avail::Blocked },
+            WState::InLock(_) => Avail::Blocked,
+        }
+    }
+
+    /// A blocked thread that can be *probed*: it is parked in front of a blocking `lock()` and no
+    /// other thread is already waiting inside that lock.
+    pub fn probeable(&self, t: Tid) -> bool {
+        match self.state(t) {
+            WState::Parked(p) if p == hook::point::SRC_LOCK_PUSH || p == hook::point::RECV_LOCK_POP =>
+                self.avail(t) == Avail::Blocked && !self.all_tids().iter().any(|u| self.state(*u) == WState::InLock(p)),
+            _ => false,
+        }
+    }
+    fn all_tids(&self) -> Vec<Tid> { let mut v: Vec<Tid> = (0..MAX_PROD).map(Tid::Prod).collect(); v.push(Tid::Cons); v.push(Tid::Stop); v }
+
+    /// points at which a thread is inside the consumer-side lock region
+    fn in_pop_region(p: u32) -> bool {
+        use hook::point::*;
+        matches!(p, RECV_LOAD_CLOSED | POP_LOAD_HEAD | POP_LOAD_TAIL | POP_READ_SLOT | POP_STORE_HEAD | POP_RETURN_NONE | RECV_STORE_ENDED)
+    }
+
+    /// bookkeeping after thread `t` moved from `before` to its current state
+    fn track_regions(&mut self, t: Tid, before: WState) -> Vec<u32> {
+        let after = self.state(t);
+        let was_push = self.holder_push == Some(t);
+        let was_pop = self.holder_pop == Some(t);
+        // producer lock: entered by passing y20, left when the operation ends or the next sample starts
+        if before == WState::Parked(hook::point::SRC_LOCK_PUSH) && matches!(after, WState::Parked(p) if p != hook::point::SRC_LOCK_PUSH) { self.holder_push = Some(t); }
+        if was_push && matches!(after, WState::Idle | WState::Parked(hook::point::SRC_LOCK_PUSH)) { self.holder_push = None; }
+        // consumer-side lock: entered by passing y41 (recv) or a successful y22 (drop-oldest)
+        match (before, after) {
+            (WState::Parked(b), WState::Parked(a)) if b == hook::point::RECV_LOCK_POP && Self::in_pop_region(a) => self.holder_pop = Some(t),
+            (WState::Parked(b), WState::Parked(a)) if b == hook::point::SRC_TRYLOCK_POP && a == hook::point::POP_LOAD_HEAD => self.holder_pop = Some(t),
+            _ => {}
+        }
+        if was_pop {
+            let still = match (t, after) {
+                (Tid::Prod(_), WState::Parked(p)) => p != hook::point::SRC_LOCK_PUSH, // producer keeps it to the end of the call
+                (_, WState::Parked(p)) => Self::in_pop_region(p),
+                _ => false,
+            };
+            if !still { self.holder_pop = None; }
+        }
+        // a released lock is taken at once by the thread waiting inside `lock()`, if any
+        let released: Vec<u32> = [(was_push && self.holder_push.is_none(), hook::point::SRC_LOCK_PUSH),
+                                  (was_pop && self.holder_pop.is_none(), hook::point::RECV_LOCK_POP)]
+            .iter().filter(|x| x.0).map(|x| x.1).collect();
+        let waiters: Vec<(u32, Tid)> = released.iter().filter_map(|p|
+            self.all_tids().into_iter().find(|u| self.state(*u) == WState::InLock(*p)).map(|u| (*p, u))).collect();
+        let mut raw: Vec<(u32, Tid, String)> = vec![];
+        for (p, u) in &waiters {
+            let tok = self.await_event(*u);
+            // the waiter now holds the lock it was waiting for
+            if *p == hook::point::SRC_LOCK_PUSH { self.holder_push = Some(*u); } else { self.holder_pop = Some(*u); }
+            raw.push((*p, *u, tok));
+        }
+        // tokens in hand-over order; the lock bits are those of the state in which the later
+        // hand-overs have not happened yet (what the model sees label by label)
+        for (k, (_p, u, tok)) in raw.iter().enumerate() {
+            let later: Vec<u32> = raw[k + 1..].iter().map(|x| x.0).collect();
+            let mut tok = tok.clone();
+            if self.push_locked() && !later.contains(&hook::point::SRC_LOCK_PUSH) { tok.push('+'); }
+            if self.pop_locked() && !later.contains(&hook::point::RECV_LOCK_POP) { tok.push('*'); }
+            self.implicit.push((Label { tid: *u, op: None }, tok));
+        }
+        waiters.iter().map(|w| w.0).collect()
+    }
+
+    /// labels that executed without being granted (see `WState::InLock`), with their tokens
+    pub fn take_implicit(&mut self) -> Vec<(Label, String)> { std::mem::take(&mut self.implicit) }
+
+    /// Grant a step to a thread that is blocked in front of `lock()`: if the lock works the thread
+    /// does not come back (token `B`, it now waits inside the lock); if it does come back the lock
+    /// did not block — a violation with this very schedule as its replay.
+    fn probe(&mut self, t: Tid) -> String {
+        let p = match self.state(t) { WState::Parked(p) => p, _ => return "B".into() };
+        self.probes += 1;
+        let _ = self.worker(t).tx.send(Cmd::Step);
+        match self.worker(t).rx.recv_timeout(PROBE_WAIT) {
+            Err(_) => { self.worker(t).state = WState::InLock(p); "B".into() }
+            Ok(ev) => {
+                let tok = match ev {
+                    Ev::Yield(q) => { self.worker(t).state = WState::Parked(q); format!("{q}") }
+                    Ev::Pending => { self.worker(t).state = WState::Pending; "P".into() }
+                    Ev::Done(r) => { self.worker(t).state = WState::Idle; format!("={r}") }
+                };
+                self.lock_fail = Some(format!("thread at yield point {p} went through a lock that another thread holds (next: {tok})"));
+                tok
+            }
         }
     }
 
@@ -351,9 +458,11 @@ impl Case {
     /// `P` recv pending, `=res` operation finished, else the yield point it is now parked at)
     /// followed by `+` if the producer lock and `*` if the consumer-side lock is held afterwards.
     pub fn step(&mut self, l: &Label) -> String {
-        let mut t = self.step_inner(l);
-        if self.push_locked() { t.push('+'); }
-        if self.pop_locked() { t.push('*'); }
+        let before = self.state(l.tid);
+        let mut t = if self.probeable(l.tid) { self.probe(l.tid) } else { self.step_inner(l) };
+        let handed = if matches!(self.state(l.tid), WState::InLock(_)) { vec![] } else { self.track_regions(l.tid, before) };
+        if self.push_locked() && !handed.contains(&hook::point::SRC_LOCK_PUSH) { t.push('+'); }
+        if self.pop_locked() && !handed.contains(&hook::point::RECV_LOCK_POP) { t.push('*'); }
         t
     }
 
